@@ -6,6 +6,18 @@ NOTES = ("Static analysis only: every check parses /repo's current working tree 
          "exit 0 = holds, exit 1 + VIOLATION line = a rule instance is positively violated, exit 2 + ANALYSIS-INCOMPLETE = the analysis could not decide (anchor vanished / idiom outside catalogue). "
          "Genuine defects found on the pinned tree were repaired by 'fix:' commits in /repo and are recorded in known_findings.json.")
 CLAIMED = {
+ "C05": {"technique": "path extraction of the per-line step of ModeDReader.read into a decision table compared with a reference line automaton; buffer-position typestate at the length guard; buffer-contract rules",
+         "level": "other",
+         "text": "Decides R1-R4: the length guard is evaluated where the buffer position is zero (never counts consumed lines) and its limit is >= 8191; the per-line step refines the reference automaton (readout built from exactly the kept lines, emitted once, back to hunt mode); pop returns LF-terminated lines and advances by their length; the chunk only extends the buffer. Delivery over all clean streams is an argument from these, not mechanised.",
+         "note": "Trusted: reference rows in sa/p1model.py; E-PATH enumerator. Validity of the delivered readout is C04's concern."},
+ "C16": {"technique": "typestate exploration of the abstract automaton derived from the HDLC decision table (per-frame state must be clean at the next frame start); discard-row and hunt-row rules; P1 guard/end-row rules",
+         "level": "other",
+         "text": "Decides R1-R3: pending escape and raw history never leak from a finished/discarded frame into the next; discard rows (too short, abort, over-long) emit nothing, abandon the frame and never start a frame on a non-flag octet; hunt-mode skipping stops at the next flag; the P1 end-line row and guard trip clear the collected lines and return to hunt mode; hunt rows ignore non-identification lines. The quantitative loss bounds are not decided.",
+         "note": "Trusted: reference automata; E-PATH enumerator; abstraction (mode, pending source, raw source) of the reader state."},
+ "C19": {"technique": "bounding-mechanism catalogue over the persistent stores enumerated from the field model: exit-trim rule, length-guard-after-every-extension rule, guard coverage and trip-path shrink rule, raw-history growth rule (decision tables of both readers)",
+         "level": "other",
+         "text": "Decides that a bound exists for each of the five persistent stores: consumed input released on every exit of read(); every frame extension followed by the discarding length guard; raw history grows only with the frame or a pending escape and is cleared per frame; P1 guard over unconsumed tail + collected lines evaluated every call, trip path clears both. The constants are not decided.",
+         "note": "Trusted: store enumeration from __init__ fields; reference automata; E-PATH enumerator."},
  "C01": {"technique": "truth-table extraction of is_valid, effect analysis of HdlcFrame.append + write census, GF(2)-affine comparison of bit-field accessors, linear-form comparison of index expressions, decision-table rules on the reader",
          "level": "other",
          "text": "Decides the structural necessary conditions R1-R6: validity is exactly FCS-and-length, the FCS register is fed each frame octet exactly once and nothing else writes it, every accessor's bit/position geometry equals ISO 13239, frames consist of popped octets once and in order, emitted frames are frozen. The end-to-end statement over all streams is an argument (with C03/C06), not mechanised.",
